@@ -356,7 +356,8 @@ static void op_ints(const McArg *a) {
 static void op_polyagg(const McArg *a) {
     int kind = (int)a[0].i, res = (int)a[1].i;
     uint32_t flags = (uint32_t)a[2].i;
-    LatLng *v = malloc(8 * sizeof(LatLng)), *hv = malloc(8 * sizeof(LatLng));
+    LatLng *v = malloc(8 * sizeof(LatLng)), *hv = malloc(48 * sizeof(LatLng));
+    int ringhole = 0;
     GeoLoop *holes = malloc(48 * sizeof(GeoLoop));
     GeoPolygon gp;
     memset(&gp, 0, sizeof gp);
@@ -409,6 +410,15 @@ static void op_polyagg(const McArg *a) {
             gp.numHoles = n, gp.holes = holes;
             break;
         }
+        case 22: case 23: case 24: case 25: case 26: {  // tiny shell (inside one cell) with a 12- / 24- / 48-vertex ring hole around it, vertexes one edge length apart (25, 26: 24 / 48 vertexes 3.2 edge lengths apart)
+            int n = kind == 22 ? 12 : kind == 23 || kind == 25 ? 24 : 48;
+            double e0 = poly_edge(res), R = (kind >= 25 ? 3.2 : 1.0) * e0 * n / (2 * M_PI);
+            for (int i = 0; i < 4; i++) v[i] = (LatLng){c.lat + 0.02 * e0 * cos(M_PI / 2 * i), c.lng + 0.02 * e0 * sin(M_PI / 2 * i) / cos(c.lat)};
+            for (int i = 0; i < n; i++) hv[i] = (LatLng){c.lat + R * cos(2 * M_PI * i / n), c.lng + R * sin(2 * M_PI * i / n) / cos(c.lat)};
+            holes[0].numVerts = n, holes[0].verts = hv, gp.numHoles = 1, gp.holes = holes;
+            ringhole = R < 0.3;
+            break;
+        }
         case 21: {  // 12 holes: the shell itself with the same winding as the shell
             for (int k = 0; k < 12; k++) holes[k].numVerts = 4, holes[k].verts = v;
             gp.numHoles = 12, gp.holes = holes;
@@ -421,7 +431,9 @@ static void op_polyagg(const McArg *a) {
     if (flagbad) want(e, E_OPTION_INVALID, !resbad, "maxPolygonToCellsSize(invalid flags)");
     if (!e && sz >= 0 && sz < (1 << 22)) {
         uint64_t *out = calloc(sz ? sz : 1, 8);
-        CALL(polygonToCells(&gp, res, flags, out), "polygonToCells");
+        H3Error pe = CALL(polygonToCells(&gp, res, flags, out), "polygonToCells");
+        // the scratch tables are sized from maxPolygonToCellsSize: running out of them is one of the "cannot happen" checks (E_FAILED)
+        if (ringhole && pe) mc_fail("polygonToCells on a tiny shell with a %d-vertex ring hole (res %d, size %" PRId64 ") returned %u: an internal 'block too small' check was hit", gp.holes[0].numVerts, res, sz, pe);
         free(out);
     } else if (!e)
         mc_ctr(4, 1);
@@ -574,7 +586,7 @@ static void ph_misc(void *u) {
         if (mc_mine(idx)) MC_RUN(OP_INTS, I(DOM_INTS[k]));
     static const int64_t fl[] = {0, 1, 2, 3, 4, 0x10, 0x80000000LL};
     static const int rs[] = {0, 1, 4, 9, 15, -1, 16};
-    for (int kind = 0; kind < 22; kind++)
+    for (int kind = 0; kind < 27; kind++)
         for (int ri = 0; ri < 7; ri++)
             for (int fi = 0; fi < 7; fi++, idx++)
                 if (mc_mine(idx)) MC_RUN(OP_POLYAGG, I(kind), I(rs[ri]), I(fl[fi]));
